@@ -257,6 +257,28 @@ def d3(chk, prog):
     tb4.done("a sample sitting exactly at its sex's expected X / Y levels is classified as the other sex")
 
 
+def d3c_stated_sex(chk, prog):
+    """the command-line glue: a stated sample sex always wins over the inferred one (shared with C01 / C02 / C20, whose commands go through it)"""
+    fi = prog.fn("cnvlib.cmdutil.verify_sample_sex")
+    tb = Table(chk, "x-adjustment", "verify_sample_sex: stated sex (x / y / f / m / female / male, any case) x inferred sex (female / male / undetermined)", fi.loc(), fi.qn)
+    for guess, arg in itertools.product([True, False, None], [None, "x", "f", "female", "Female", "y", "m", "male", "Male"]):
+        W.reset()
+        model = Model()
+        seen = []
+
+        def gx(it, obj, hap=False, par=None, verbose=True, seen=seen, guess=guess, **k):
+            seen.append((hap, par))
+            return guess
+        model.method_prims["guess_xx"] = gx
+        it = Interp(prog, model)
+        out = tb.guard(lambda: ("v", it.run(fi.qn, [cna(["auto", "x", "y"], "chr"), arg, True, "grch38"])), f"inferred={guess} stated={arg}")
+        if out is None:
+            continue
+        want = guess if arg is None else (arg.lower() not in ("y", "m", "male"))
+        tb.cell(out[1] is want and seen == [(True, "grch38")], dict(inferred_female=guess, stated=arg, result=out[1], want=want, guess_xx_called_with=seen))
+    tb.done("the sample sex used downstream is not the stated one when one is stated (else the inferred one)")
+
+
 def d4(chk, prog):
     chk.clause("D4", "role-flow of the sex / PAR flags through guess_xx, shift_xx, compare_sex_chromosomes, do_sex")
     roles.check(chk, prog, modules=("cnvlib.cnary", "cnvlib.commands", "cnvlib.reference", "cnvlib.reports", "cnvlib.segmetrics", "cnvlib.export", "cnvlib.diagram",
@@ -272,6 +294,7 @@ def run(chk):
     d1(chk, prog)
     d2(chk, prog)
     d3(chk, prog)
+    d3c_stated_sex(chk, prog)
     C05.d2(chk, prog)            # expect_flat_log2 table (shared with C05-D2)
     d4(chk, prog)
 
